@@ -625,7 +625,8 @@ class RefServer:
         for n in self.order:
             out += enc_string(n.encode("utf-8"), self.ch, "list-name-literal")
             if n == self.active:
-                out += b" ACTIVE"
+                # ABNF literals are case-insensitive (RFC 5234 2.3): ACTIVE may be written in any letter case
+                out += b" " + getattr(self, "active_marker", b"ACTIVE")
             out += CRLF
         self.emit(out)
         self.ok(b"Listscripts completed.")
@@ -732,7 +733,8 @@ class VSocket:
          None            everything available (up to n)
          ('cuts', [..])  absolute cut offsets into the stream served from now on
          ('cap', k)      at most k bytes per call
-         ('choice', [k1,k2..]) explorer choice point at every recv: default all, deviation i = first k_i bytes
+         ('choice', [k1,k2..]) explorer choice point at every recv: default all, deviation i = first k_i bytes (negative: all but
+                         the last |k|; "cr1" / "crl": up to and including the first / last CR, i.e. between a CR and its LF)
     """
 
     def __init__(self, server, tls=False):
@@ -793,7 +795,17 @@ class VSocket:
                         k = min(k, c - self.served)
                         break
             elif kind == "choice":
-                opts = [x for x in seg[1] if x < k]
+                opts = []
+                for x in seg[1]:
+                    # positive: first x bytes; negative: all but the last |x|; "cr1"/"crl": up to and including the first / last CR
+                    if x == "cr1":
+                        x = avail.find(b"\r", 0, k) + 1
+                    elif x == "crl":
+                        x = avail.rfind(b"\r", 0, k) + 1
+                    elif x < 0:
+                        x = k + x
+                    if 0 < x < k and x not in opts:
+                        opts.append(x)
                 c = srv.ch.choose("recv-cut", 1 + len(opts))
                 if c:
                     k = opts[c - 1]
